@@ -20,6 +20,7 @@ parameters exist.  This module
 OpenSSL's behaviour is OBSERVED, never proved.
 """
 import os
+import sys
 
 TRANSLATORS = []
 
@@ -1070,7 +1071,7 @@ def cred_for_suite(sid, default="rsa"):
 
 def make_combo(role, ver, sid, restrict="both", cred=None, group=None, client_cred=None, alpn_tl=None,
                alpn_os=None, resume=None, payloads=None, tl_extra=None, os_extra=None, tag="", decline=False,
-               pay_seed=0):
+               pay_seed=0, steer=None):
     """role = tlslite's role; ver = version code to pin; sid = suite id to pin (or None);
     restrict: which side is pinned to (ver, sid, group): 'both' | 'tl' | 'os'"""
     name = SUITE_NAME[sid] if sid is not None else None
@@ -1132,7 +1133,7 @@ def make_combo(role, ver, sid, restrict="both", cred=None, group=None, client_cr
     osc = OsslCfg(**okw)
     return {"tag": tag, "role": role, "ver": ver, "suite": sid, "group": group, "restrict": restrict, "cred": cred,
             "tl": tl, "os": osc.as_dict(), "resume": resume, "decline": decline,
-            "payloads": list(payloads if payloads is not None else SMALL), "pay_seed": pay_seed}
+            "payloads": list(payloads if payloads is not None else SMALL), "pay_seed": pay_seed, "steer": steer}
 
 
 def combo_label(cb):
@@ -1435,6 +1436,8 @@ def control(cb, tcaps):
 
 # --------------------------------------------------------------------------------------------
 class Result(object):
+    steer = None
+
     def __init__(self):
         self.violations = []      # (key, what)
         self.disagreements = []   # (stream, model, impl)
@@ -1552,7 +1555,11 @@ def run_combo(cb, lc=None, ticket_key=b"\x07" * 32):
                 R.violations.append((label + ":config-rejected",
                                      "tlslite refuses a configuration the expectation calls compatible: %s" % e))
             return R
-        pr.run_handshake()
+        from . import c07_steer
+        with c07_steer.steering(sys.modules[__name__], pr, role, cb.get("steer") if i == 0 else None) as steer_st:
+            pr.run_handshake()
+        if i == 0 and cb.get("steer"):
+            R.steer = dict(steer_st)
         o = observe_pair(pr)
         R.conns.append(strip_obs(o))
         both_done = o["tl_state"] == "done" and o["os_state"] == "done"
@@ -1957,6 +1964,26 @@ def gen_combos(ctx):
                 for sid in (0x1301, 0x1302, 0x1303) if thorough else (0x1303,):
                     yield make_combo(role, 0x0304, sid, "both", resume="psk", client_cred=cc, tag="resume-product", pay_seed=seed(), **akw)
 
+    # S. steered leading zeros: tlslite's random private value is redrawn (from its own generator) until an
+    #    independently computed predicate holds - own FFDHE public value / the shared secret / the RSA ciphertext
+    #    starts with a zero byte.  The side that draws AFTER seeing the peer's share can be steered for the
+    #    shared secret: the client in TLS <= 1.2, the server in TLS 1.3.
+    xs = ("z0", "z0lsb") if thorough else ("z0",)
+    for g in EC_NAMES:
+        for want in (xs if g in ("x25519", "x448") else ("z0",)):
+            for v, sid in ((0x0303, 0xC02F), (0x0301, 0xC013)) if thorough else ((0x0303, 0xC02F),):
+                yield make_combo("client", v, sid, "both", group=g, steer=want, tag="steered", pay_seed=seed())
+            yield make_combo("server", 0x0304, 0x1301, "both", group=g, steer=want, tag="steered", pay_seed=seed())
+    for g in (FF_NAMES[:3] if thorough else FF_NAMES[:1]):
+        for want in ("pub0", "z0"):
+            for v, sid in ((0x0303, 0x009E), (0x0301, 0x0033), (0x0303, 0x006C)) if thorough else ((0x0303, 0x009E), (0x0301, 0x0033)):
+                yield make_combo("client", v, sid, "both", group=g, steer=want, tag="steered", pay_seed=seed())
+            yield make_combo("server", 0x0304, 0x1302, "both", group=g, steer=want, tag="steered", pay_seed=seed())
+        yield make_combo("client", 0x0304, 0x1301, "both", group=g, steer="pub0", tag="steered", pay_seed=seed())
+        yield make_combo("server", 0x0303, 0x009E, "both", group=g, steer="pub0", tag="steered", pay_seed=seed())
+    for v, sid in ((0x0303, 0x009C), (0x0301, 0x002F), (0x0302, 0x0035), (0x0303, 0xC09C)) if thorough else ((0x0303, 0x009C), (0x0301, 0x002F)):
+        yield make_combo("client", v, sid, "both", steer="rsa0", tag="steered", pay_seed=seed())
+
     # H. configurations that share no common parameters: both sides must fail
     for role in ROLES:
         for vt, vo in ((0x0304, 0x0303), (0x0303, 0x0304), (0x0301, 0x0303), (0x0303, 0x0301), (0x0302, 0x0304)):
@@ -2069,6 +2096,47 @@ def table_checks(ctx):
                     ctx.disagree("lean-versionOk-vs-iana-parse", (sid, v), g, w)
 
 
+SRP_STEERS = ("none", "A0", "B0", "u0", "S0", "AB0")
+
+
+def srp_checks(ctx):
+    """SRP (not reachable through the stdlib): RFC 5054 reference peer <-> tlslite SRPKeyExchange, both roles,
+    through the serialised key-exchange messages, exponents steered to leading zero bytes of A, B, u, premaster"""
+    from ..core import Infra
+    from . import c07_steer as S
+    from tlslite.mathtls import goodGroupParameters
+    from tlslite.constants import CipherSuite
+    if not S.srp_selftest():
+        raise Infra("RFC 5054 reference peer does not reproduce the RFC 5054 appendix B vector")
+    if not S.x_selftest():
+        raise Infra("RFC 7748 reference ladder does not reproduce the RFC 7748 vectors")
+    rng = ctx.rng
+    # group parameters are data the server announces; the 1024-bit one is the harness' own RFC 5054 constant
+    groups = [(2, S.N1024)] + [goodGroupParameters[i] for i in ((2,) if not ctx.thorough() else (1, 2, 3, 4))]
+    # the unsigned SRP suites: the key exchange arithmetic is the same in the certificate-signed ones
+    suites = [CipherSuite.TLS_SRP_SHA_WITH_AES_128_CBC_SHA, CipherSuite.TLS_SRP_SHA_WITH_AES_256_CBC_SHA]
+    for g, N in groups:
+        for role in ROLES:
+            for steer in SRP_STEERS + (("none",) * 6 if ctx.thorough() else ("none",)):
+                s = bytes(rng.getrandbits(8) for _ in range(rng.choice((1, 8, 16, 32))))
+                user = rng.choice(("alice", "u", "user@example.com"))
+                pw = rng.choice(("password123", "", "p\u00e4ss w:rd"))
+                a, b = S.find_exponents(rng, N, g, s, user.encode(), pw.encode(), role, steer)
+                case = {"role": role, "N": "%x" % N, "g": g, "s": s.hex(), "I": user, "P": pw, "a": a, "b": b,
+                        "suite": rng.choice(suites), "version": list(rng.choice(((3, 1), (3, 2), (3, 3)))), "steer": steer}
+                try:
+                    ok, d = S.srp_case(case)
+                except Exception as e:   # noqa: B902
+                    ok, d = False, {"exception": type(e).__name__ + ": " + str(e)}
+                ctx.case(key=("srp", role, N.bit_length(), steer, a, b, case["s"]), sample=None)
+                ctx.count("srp:%s:%s" % (role, steer))
+                if not ok:
+                    ctx.violation("c07:srp:%s:premaster-differs:%s" % (role, steer),
+                                  "SRP: tlslite (%s) and the RFC 5054 reference peer derive different premaster secrets "
+                                  "(%d-bit group, steered %s): %s" % (role, N.bit_length(), steer, d),
+                                  {"stage": "srp", "case": case, "details": d})
+
+
 def run(ctx):
     import warnings
     warnings.simplefilter("ignore", DeprecationWarning)
@@ -2091,6 +2159,7 @@ def run(ctx):
                                 "0-RTT, post-handshake authentication, renegotiation, KeyUpdate"]
     lc = ctx.lean()
     table_checks(ctx)
+    srp_checks(ctx)
     seen = set()
     notes = {}
     budget = ctx.pick(110, 800)
@@ -2125,6 +2194,10 @@ def run(ctx):
                 ctx.count("live:resumed-after-hello-retry-request")
             else:
                 R.notes.append("resume-hrr combination did not exercise HelloRetryRequest + resumption together")
+        if R.steer is not None:
+            ctx.count("steered:%s:%s" % (R.steer["want"], "hit" if R.steer["hit"] else "miss"))
+            if not R.steer["hit"]:
+                R.notes.append("steering %s did not reach its predicate (combination ran unsteered)" % R.steer["want"])
         for n in R.notes:
             notes[n] = notes.get(n, 0) + 1
         report(ctx, cb, R)
@@ -2138,6 +2211,14 @@ def replay(ctx, rep):
     import warnings
     warnings.simplefilter("ignore", DeprecationWarning)
     inp = rep["input"]
+    if inp.get("stage") == "srp":
+        from . import c07_steer as S
+        try:
+            ok, d = S.srp_case(inp["case"])
+        except Exception as e:   # noqa: B902
+            ok, d = False, {"exception": type(e).__name__ + ": " + str(e)}
+        print("reference selftest:", S.srp_selftest(), " agree:", ok, d)
+        return not ok
     if "combo" not in inp:
         print("replay of stage %r: re-running the whole check" % inp.get("stage"))
         run(ctx)
